@@ -35,7 +35,7 @@ DIMS = {
     "record_size_limit": [None, 64, 0, 16384, 1000],
     "alpn": [None, [b"h2", b"http/1.1"], [b"http/1.1"], [b"spdy/3"]],
 }
-SERVER_CREDS = ["rsa", "ecdsa", "rsapss", "rsa+req", "rsa+reqnone", "ecdsa+req", "anon"]
+SERVER_CREDS = ["rsa", "ecdsa", "rsapss", "rsa+req", "rsa+reqnone", "ecdsa+req", "anon", "rsa+resume", "rsa+chain"]
 
 
 def make_settings(choice):
@@ -200,6 +200,49 @@ def _run_pair(idx, cchoice, schoice, scred):
     ch, key = cred(scred)
     ckw = dict(settings=chs, serverName="host.example")
     cltbits = 0
+    prior = None
+    if ca == "resume":
+        # a session made under the server's DEFAULT policy (TLS 1.2, session cache) is offered to the server after
+        # its policy changed to `schoice`: whatever happens then must be within the NEW policy
+        from tlslite.api import SessionCache
+        if cchoice.get("vers") or schoice.get("vers"):
+            return {"skip": "resumption variant runs at TLS 1.2 only"}
+        for hs in (chs, shs):
+            hs.minVersion = hs.maxVersion = (3, 3)
+        cabs = abstract(chs, calpn)
+        sabs = abstract(shs, salpn)
+        cache = SessionCache()
+        from tlslite.api import HandshakeSettings
+        d = HandshakeSettings()
+        d.minVersion = d.maxVersion = (3, 3)
+        p0 = Pair("c03-%d-prior" % idx)
+        ck0 = dict(settings=chs, serverName="host.example")
+        if calpn:
+            ck0["alpn"] = calpn
+        sk0 = dict(certChain=ch, privateKey=key, settings=d, sessionCache=cache)
+        if calpn:
+            sk0["alpn"] = calpn
+        st0, co0, so0 = p0.handshake(ckw=ck0, skw=sk0)
+        if not (co0.ok and so0.ok):
+            return {"skip": "prior connection did not complete"}
+        p0.close("c")
+        p0.read("s", 10, 0)
+        prior = p0.c.session
+        ckw["session"] = prior
+        skw_cache = cache
+        ca = ""
+    elif ca == "chain":
+        # a server chain with two certificates
+        from ..endpoints import _load_chain, _load_key
+        from tlslite.api import X509CertChain
+        leaf = _load_chain("serverRSANonCACert.pem")
+        ca_cert = _load_chain("serverX509Cert.pem")
+        ch = X509CertChain(list(leaf.x509List) + list(ca_cert.x509List))
+        key = _load_key("serverRSANonCAKey.pem")
+        skw_cache = None
+        ca = ""
+    else:
+        skw_cache = None
     if ca == "req":
         cch, ckey = cred("c_rsa")
         ckw["certChain"], ckw["privateKey"] = cch, ckey
@@ -207,6 +250,8 @@ def _run_pair(idx, cchoice, schoice, scred):
     if calpn:
         ckw["alpn"] = calpn
     skw = dict(certChain=ch, privateKey=key, settings=shs)
+    if skw_cache is not None:
+        skw["sessionCache"] = skw_cache
     if ca:
         skw["reqCert"] = True
     if salpn:
